@@ -37,8 +37,16 @@ type violation struct {
 
 func (v *violation) sig() string { return v.Oracle + "/" + v.Kind }
 
+type history struct {
+	From      uint64 `json:"from"`
+	Stride    uint64 `json:"stride"`
+	Count     uint64 `json:"count"`
+	ColdFirst bool   `json:"cold_first,omitempty"`
+}
+
 type violRec struct {
 	T         string                 `json:"t"`
+	Hist      *history               `json:"history,omitempty"`
 	Run       uint64                 `json:"run"`
 	Seed      uint64                 `json:"seed"`
 	Viol      *violation             `json:"viol"`
